@@ -105,6 +105,16 @@ M = {
     # ---- checks built in earlier rounds --------------------------------------------------------------------------------------
     'c01-percent-tenth': ('C01', [(SRC + 'translators/expression_token_translator.py', "f'self._normalize_float_number({operand} / 100)'", "f'self._normalize_float_number({operand} / 100.0000000001)'")],
                           'x% is x/100.0000000001'),
+    'c01-text-compare-case-sensitive': ('C01', [(CTX, "left_operand, right_operand = left_operand.lower(), right_operand.lower()", "pass"),
+                                                (ABS, "left_operand, right_operand = left_operand.lower(), right_operand.lower()", "pass")],
+                                        'text operands of comparisons compared by code point again (the repaired defect)'),
+    'c17-float-count-not-converted': ('C17', [(CTX, "        num_chars = int(num_chars)\n        if isinstance(text, self.EmptyCell):\n            text = ''\n        if num_chars < 0:\n            return '#ERROR!'\n        if not text:\n            return self.EmptyCell()\n        if len(text) < num_chars:\n            return text\n        return text[0:num_chars]",
+                                               "        if num_chars < 0:\n            return '#ERROR!'\n        if not text:\n            return self.EmptyCell()\n        if len(text) < num_chars:\n            return text\n        return text[0:num_chars]"),
+                                              (ABS, "        num_chars = int(num_chars)\n        if isinstance(text, self.EmptyCell):\n            text = ''\n        if num_chars < 0:\n            return '#ERROR!'\n        if not text:\n            return self.EmptyCell()\n        if len(text) < num_chars:\n            return text\n        return text[0:num_chars]",
+                                               "        if num_chars < 0:\n            return '#ERROR!'\n        if not text:\n            return self.EmptyCell()\n        if len(text) < num_chars:\n            return text\n        return text[0:num_chars]")],
+                                      'LEFT with a whole-number float count fails again (the repaired defect; needs a count made by ROUND*)'),
+    'c14-vlookup-case-sensitive': ('C14', [(CTX, "                key, wanted = key.lower(), wanted.lower()", "                pass"), (ABS, "                key, wanted = key.lower(), wanted.lower()", "                pass")],
+                                   'VLOOKUP compares text keys by code point again (the repaired defect)'),
     'c01-amp-precedence': ('C01', [(SRC + 'translators/expression_token_translator.py', "AmpersandToken: 2,", "AmpersandToken: 3,")], '& binds as tightly as + -'),
     'c03-area-cells-not-registered': ('C03', [(SRC + 'translators/matrix_of_cell_identifiers_token_translator.py', "CellTranslator.translate(j, excel, context) for j in i",
                                                "(CellTranslator.translate(j, excel, context) if excel.fill_cell(j).column < 3 else context._get_cell_with_cell_preprocessor(j.uid)) for j in i")],
